@@ -247,6 +247,14 @@ impl ClauseTree {
         }
     }
 
+    /// every tuple arity occurring anywhere in the tree
+    pub fn arities(&self, out: &mut std::collections::BTreeSet<usize>) {
+        if let ClauseTree::Tuple(items) = self {
+            out.insert(items.len());
+            items.iter().for_each(|i| i.arities(out));
+        }
+    }
+
     pub fn depth(&self) -> usize {
         match self {
             ClauseTree::Tuple(items) => 1 + items.iter().map(|i| i.depth()).max().unwrap_or(0),
